@@ -181,21 +181,35 @@ def check(ctx: Ctx) -> None:
     init = prog.module("htmltools")
     tags = prog.module("htmltools.tags")
     try:
-        shortcuts = prog.fold_name("htmltools.tags", "__all__")
+        listed = prog.fold_name("htmltools.tags", "__all__")
     except AnalysisError:
-        shortcuts = None
-    ctx.require(isinstance(shortcuts, (tuple, list)) and len(shortcuts) >= 17, "htmltools.tags.__all__ does not fold to the >= 17 shortcut names")
+        listed = ()
+    exports = prog.fold_name("htmltools", "__all__")
+    ctx.require(isinstance(exports, (tuple, list)) and isinstance(listed, (tuple, list)), "htmltools.__all__ / htmltools.tags.__all__ do not fold to name sequences")
+    dynamic = "__getattr__" in init.functions or any(isinstance(n, ast.Call) and isinstance(n.func, ast.Name) and n.func.id in ("globals", "vars", "setattr")
+                                                     for n in ast.walk(init.tree))
+    # the shortcuts: every exported top-level name that is also the name of a generated function of htmltools.tags (the
+    # sub-module `svg` is exported under the name of the <svg> function and is not a shortcut), plus tags.__all__
+    shortcuts = [n for n in exports if n in tags.functions] + [n for n in listed if n not in exports]
     nre = 0
     for nm in shortcuts:
         where = "htmltools:<module>"
         k, v = prog.resolve(init, nm)
+        if k in ("module", "extern_module") and nm not in listed:
+            continue
         if k == "unknown":
+            if nm in exports and not dynamic:
+                ctx.fail("C19.6", where, f"re-export {nm}", f"`{nm}` is listed in htmltools.__all__ and names a generated tag function, but no top-level "
+                         f"statement of htmltools/__init__.py binds it: `from htmltools import {nm}` raises", witness=f"from htmltools import {nm}")
+                continue
             raise AnalysisError(f"top-level shortcut `{nm}` is no longer re-exported from htmltools/__init__.py")
         nre += 1
         good = k == "func" and v[0] is tags and v[1] is tags.functions.get(nm)
         got = f"{v[0].name}.{v[1].name}" if k == "func" else f"{k}"
         ctx.check(good, "C19.6", f"htmltools.{nm} resolves to htmltools.tags.{nm}", where, f"re-export {nm}",
                   f"top-level `{nm}` resolves to {got}, not htmltools.tags.{nm}", witness=f"htmltools.{nm}().name")
+    if nre < 17 and not any(f.rule == "C19.6" for f in ctx.findings):
+        raise AnalysisError(f"only {nre} top-level shortcuts found; the property enumerates 17")
     ctx.count("re_exports", nre)
     _check_init_guard(ctx)
     ctx.count("generated_functions_total", total)
